@@ -508,6 +508,7 @@ pub fn record_object(out: &mut TraceOut, rng: &mut Rng, label: &str, kind: &str,
     };
     out.push(json!({"e": "def", "label": label, "t": kind, "route": route, "len": len, "runs": runs_json(runs), "cum": cum_json(runs), "built": "ok",
         "obs": [bv.query("len", 0), bv.query("ones", 0), bv.query("zeros", 0)]}));
+    let def_line = out.lines.len();      // 1-based line number of the def event: later events refer to it
     let ones = ones_of(runs);
     let pos = position_args(rng, len, runs, extra);
     let sel = select_args(rng, ones, extra);
@@ -519,7 +520,7 @@ pub fn record_object(out: &mut TraceOut, rng: &mut Rng, label: &str, kind: &str,
         for chunk in all.chunks(64) {
             let rs: Vec<Value> = chunk.iter().map(|a| bv.query(op, *a)).collect();
             let as_: Vec<Value> = chunk.iter().map(|a| enc_arg(*a)).collect();
-            out.push(json!({"e": "q", "op": op, "a": as_, "r": rs}));
+            out.push(json!({"e": "q", "d": def_line, "op": op, "a": as_, "r": rs}));
         }
         stats["queries"] = json!(stats["queries"].as_u64().unwrap_or(0) + all.len() as u64);
     };
@@ -533,7 +534,7 @@ pub fn record_object(out: &mut TraceOut, rng: &mut Rng, label: &str, kind: &str,
     emit("pred", &pos, true, None);
     emit("succ", &pos, true, None);
     if let AnyBv::RL(rv) = &bv {
-        out.push(json!({"e": "runs", "items": run_iter_items(rv)}));
+        out.push(json!({"e": "runs", "d": def_line, "items": run_iter_items(rv)}));
     }
     if let AnyBv::Sparse(sv) = &bv {
         let elems = crate::layout::to_elements(&crate::layout::to_bytes(sv));
